@@ -100,6 +100,9 @@ def check_assign_kernel(fs, k, forms, op=None):
     else:
         probs.append("unrecognised write target %s" % show(t))
         return probs
+    if forms is not None and len(comps) != len(forms) and len(forms) == 2 and len(comps) == 1:
+        probs.append("the sink is written through %d index position (%s) but the assignment form has %d: a linear offset is bounds-checked against len() only, so an out-of-range row or column addresses some other element instead of failing" % (
+            len(comps), show(comps[0])[:60], len(forms)))
     if forms is not None and len(comps) == len(forms):
         cls = [classify_component(c, w, k) for c in comps]
         for pos, (c, form) in enumerate(zip(cls, forms)):
